@@ -1115,6 +1115,10 @@ struct Digit {
                         } else if (!power_increased) {
                             stream += DigitUtils::DigitChar::Dot;
                             stream += DigitUtils::DigitChar::Zero;
+                        } else {
+                            // 0.5 < x < 1 with no fraction digit left: the carry is the whole number.
+                            index -= SizeT(index == stream.Length());
+                            storage[index] = DigitUtils::DigitChar::One;
                         }
                     } else {
                         --index;
